@@ -958,6 +958,9 @@ class Interp:
         if nf.is_const(an) and nf.is_const(bn) and isinstance(a, Num) and isinstance(b, Num):
             x, y = nf.cval(an), nf.cval(bn)
             return BoolV("const", {"==": x == y, "!=": x != y, "<": x < y, "<=": x <= y, ">": x > y, ">=": x >= y}[sym])
+        if isinstance(a, Num) and isinstance(b, Num) and an == bn:
+            # the same exact term on both sides (mathematically equal; a float implementation decides it by rounding)
+            return BoolV("const", sym in ("==", "<=", ">="))
         return BoolV("cmp", an, bn, sym)
 
     @staticmethod
@@ -1500,14 +1503,17 @@ class Interp:
 
     def _call_extobj(self, obj: ExtObj, args, kwargs, node):
         parts = [self.to_nf(a) for a in args]
-        self.log("extobj_call", node, obj=obj, args=args, kwargs=kwargs)
+        ev = self.log("extobj_call", node, obj=obj, args=args, kwargs=kwargs)
         base = self.to_nf(obj)
         a = self.single_atom(base)
         name = a[1] if a is not None and a[0] == "fn" else obj.qual
         inner = [nf.unkey(x) for x in a[2]] if a is not None and a[0] == "fn" else []
         if len(args) == 1 and not kwargs and isinstance(args[0], (Vec, TupV)):
-            return self._map1(args[0], lambda x: nf.fn("call:" + name, *inner, x))
-        return Num(nf.fn("call:" + name, *inner, *parts))
+            res = self._map1(args[0], lambda x: nf.fn("call:" + name, *inner, x))
+        else:
+            res = Num(nf.fn("call:" + name, *inner, *parts))
+        ev.data["result"] = res
+        return res
 
     def _call_method(self, recv, meth, args, kwargs, node):
         if isinstance(recv, (Num, Vec, Buf, TupV)):
